@@ -14,13 +14,14 @@ ID = "C18"
 LEVEL = "exploration"
 RULE = ("object graphs of 1..10 containers over {list, tuple, dict, set, custom object} with scalar leaves: trees, DAGs with sharing at "
         "several depths, self-loops, mutual cycles (depth 0..5) x entry point {json.build_tree, BasicBuilder, pydiff.build_tree} x "
-        "dictionary strategy x list options x {check_for_cycles, ignore_cycles}; non-trivial = graph has sharing or a cycle or "
+        "dictionary strategy x list options x {check_for_cycles, ignore_cycles}; plus call histories on one builder instance (a part then the whole that contains it, the "
+        "same structure twice, conversions after a reported cycle), each step compared with a fresh builder; non-trivial = graph has sharing or a cycle or "
         "depth >= 2; distinct = distinct (graph, entry point, options)")
 ASSUMPTIONS = ["bytes, NaN and check_for_cycles=False on cyclic input are not judged",
                "json.build_tree has no cycle option: on cyclic input any prompt exception (RecursionError, ValueError) is accepted",
                "expand-call budget = 8*(size of the path-unfolding of the object graph)+32: shared sub-objects are legitimately expanded once per reference"]
-MINIMUMS = {"quick": {"acyclic_conversions": 4000, "cyclic_inputs": 1500, "dags_with_sharing": 300, "copies_judged": 3000},
-            "thorough": {"acyclic_conversions": 100000, "cyclic_inputs": 40000, "dags_with_sharing": 6000, "copies_judged": 40000}}
+MINIMUMS = {"quick": {"conversions_on_a_reused_builder": 1000, "acyclic_conversions": 4000, "cyclic_inputs": 1500, "dags_with_sharing": 300, "copies_judged": 3000},
+            "thorough": {"conversions_on_a_reused_builder": 40000, "acyclic_conversions": 100000, "cyclic_inputs": 40000, "dags_with_sharing": 6000, "copies_judged": 40000}}
 ENTRIES = ["json", "basic", "pydiff"]
 
 
@@ -35,7 +36,10 @@ class GVObj2:
 def plan(tier, seed):
     q = tier == "quick"
     ns, per = (8, 350) if q else (16, 5000)
-    return [{"stratum": "object-graphs", "n": per, "k": k, "clean": True} for k in range(ns)]
+    specs = [{"stratum": "object-graphs", "n": per, "k": k, "clean": True} for k in range(ns)]
+    for k in range(2 if q else 8):
+        specs.append({"stratum": "one-builder-many-conversions", "n": 300 if q else 4000, "k": k, "clean": True, "reuse": True})
+    return specs
 
 
 SCALARS = ["a", "ab", "", "k", 2, 3, 10, -1, 2**40, 1.5, True, False, None, "1", "True"]
@@ -205,6 +209,14 @@ def expected(o):
 
 def gen_cases(spec, ctx):
     r = ctx.rng
+    if spec.get("reuse"):
+        # the call-history dimension: one builder instance converts several structures in a row (both documents of a comparison,
+        # a part and then the whole that contains it, a retry after a reported cycle, the same structure twice)
+        for _ in range(spec["n"]):
+            gs = [gen_graph(r) for _ in range(r.randint(2, 4))]
+            yield {"reuse": True, "graphs": gs, "entry": r.choice(["basic", "pydiff"]), "ds": r.choice(gen.DS), "le": r.choice(gen.LE),
+                   "ignore_cycles": r.random() < 0.4, "seed": r.randrange(1 << 30)}
+        return
     for _ in range(spec["n"]):
         g = gen_graph(r)
         for entry in ENTRIES:
@@ -234,11 +246,87 @@ def setup(ctx):
 _budget = [10 ** 9]
 
 
+def _outcome(builder, obj):
+    from graphtage.builder import CyclicReference
+    try:
+        tree = builder.build_tree(obj)
+    except core.Budget:
+        raise
+    except RecursionError:
+        return ("RecursionError",)
+    except Exception as ex:  # noqa
+        return (type(ex).__name__, "cycle" in str(ex).lower())
+    return ("tree", val(tree), sum(1 for n in tree.dfs() if isinstance(n, CyclicReference)))
+
+
+def check_reuse(case, ctx):
+    """One builder, many conversions: every conversion must come out exactly as it does on a fresh builder."""
+    import random
+    from graphtage.builder import BasicBuilder
+    import graphtage.pydiff as gpd
+    r = random.Random(case["seed"])
+    opts = gen.build_options(case["ds"], case["le"], ignore_cycles=case["ignore_cycles"])
+    cls = BasicBuilder if case["entry"] == "basic" else gpd.PyObjBuilder
+    keep = []        # the objects stay alive for the whole history (no address reuse between steps by accident of this harness)
+    steps = []
+    for g in case["graphs"]:
+        try:
+            root, objs = materialize(g)
+        except ValueError:
+            continue
+        keep.append(objs)
+        nn, ne, info = analyse(root)
+        if case["entry"] == "basic" and info["has_obj"]:
+            continue
+        parts = [o for o in objs[1:] if isinstance(o, (list, dict, tuple))]
+        x = r.random()
+        if parts and x < 0.45:
+            steps.append(("part", r.choice(parts)))
+            steps.append(("whole", root))
+        elif x < 0.6:
+            steps.append(("whole", root))
+            steps.append(("again", root))
+        elif parts and x < 0.75:
+            steps.append(("whole", root))
+            steps.append(("part-after", r.choice(parts)))
+        else:
+            steps.append(("whole", root))
+    if len(steps) < 2:
+        return []
+    _budget[0] = 10 ** 9
+    shared = cls(opts)
+    diags = []
+    for i, (what, obj) in enumerate(steps):
+        _expand_calls[0] = 0
+        _budget[0] = 8 * analyse(obj)[2]["unfolded"] + 32
+        try:
+            got = _outcome(shared, obj)
+            _expand_calls[0] = 0
+            want = _outcome(cls(opts), obj)
+        except core.Budget as ex:
+            diags.append({"kind": "expand-budget-exceeded", "entry": case["entry"], "msg": str(ex), "step": i})
+            break
+        if ctx is not None:
+            ctx.count("conversions_on_a_reused_builder")
+            ctx.count("reuse_step:" + what)
+            if want[0] != "tree":
+                ctx.count("reuse_step_after_or_at_failure")
+        if got != want:
+            diags.append({"kind": "reused-builder-converts-differently", "entry": case["entry"], "step": i, "what": what,
+                          "history": [w for w, _ in steps[:i + 1]], "fresh": repr(want)[:200], "reused": repr(got)[:200]})
+            break
+    if ctx is not None:
+        ctx.seen(case, nontrivial=True)
+    return diags
+
+
 def check(case, ctx):
     import graphtage
     import graphtage.json as gj
     from graphtage.builder import BasicBuilder, CyclicReference
     import graphtage.pydiff as gpd
+    if case.get("reuse"):
+        return check_reuse(case, ctx)
     diags = []
     try:
         root, objs = materialize(case["graph"])
@@ -381,6 +469,13 @@ def classify(case, diag):
 
 
 def shrink_candidates(case):
+    if case.get("reuse"):
+        for i in range(len(case["graphs"])):
+            if len(case["graphs"]) > 1:
+                c = dict(case)
+                c["graphs"] = case["graphs"][:i] + case["graphs"][i + 1:]
+                yield c
+        return
     g = case["graph"]
     nodes = g["nodes"]
     for i, nd in enumerate(nodes):
